@@ -44,7 +44,7 @@ Theorem C04_box_needs_semicolon_refuted :
   accepted_in 0 T_box_stmt = false /\ accepted_in 3 T_box_stmt = false /\ accepted_in 4 T_box_stmt = true.
 Proof. exact box_needs_semicolon_refuted. Qed.
 
-Example C04_nonvacuous : (143 <=? List.length ids)%nat = true /\ List.length ctx_ids = 10%nat /\
+Example C04_nonvacuous : (146 <=? List.length ids)%nat = true /\ List.length ctx_ids = 10%nat /\
   length (filter k_c04_rejected ids) = 5%nat.
 Proof. vm_compute. auto. Qed.
 
